@@ -18,11 +18,17 @@ CONFIGS = [
 ]
 
 
-def expat_accepts(data, ns):
+def expat_accepts(data, ns, ents=()):
     p = pyexpat.ParserCreate(namespace_separator='\x01') if ns else pyexpat.ParserCreate()
     p.SetParamEntityParsing(pyexpat.XML_PARAM_ENTITY_PARSING_ALWAYS)
-    # an external entity cannot be fetched: tell expat to treat it as empty
-    p.ExternalEntityRefHandler = lambda *a: 1
+    files = dict((k.split('/')[-1], v) for k, v in ents)
+
+    def ext(context, base, sysid, pubid):
+        # entities of the case are parsed; anything else is treated as empty
+        sub = p.ExternalEntityParserCreate(context)
+        sub.Parse(files.get(sysid, b''), True)
+        return 1
+    p.ExternalEntityRefHandler = ext
     try:
         p.Parse(data, True)
         return True
@@ -66,7 +72,7 @@ def run(tier):
                         continue
                     cid = 'r%dw%d.%s.ns%d' % (rd, i, name, ns)
                     o = dict(opts, ns=ns, dump=0)
-                    cases.append(core.Case(cid, 'parse', o).doc(g['bytes']))
+                    cases.append(core.Case(cid, 'parse', o, ents=g['ents']).doc(g['bytes']))
                     info[cid] = ('wf', g, name, None)
             # ---- mutants
             ops = list(xmlmut.ALL_OPS)
@@ -89,7 +95,7 @@ def run(tier):
                 # second opinion
                 xa = None
                 if cx.version == '1.0' and (not ns_only or opn in ('ns-unbound-element-prefix', 'ns-unbound-attr-prefix')):
-                    xa = expat_accepts(m['bytes'], ns_only)
+                    xa = expat_accepts(m['bytes'], ns_only, g['ents'])
                     if xa is True:
                         stats['discarded_expat_accepts_mutant'] += 1
                         accepted_ops[opn] += 1
@@ -101,7 +107,7 @@ def run(tier):
                         ns = 1
                     cid = 'r%dm%d.%s.%s.ns%d' % (rd, i, opn, name, ns)
                     o2 = dict(opts, ns=ns, dump=0)
-                    cases.append(core.Case(cid, 'parse', o2).doc(m['bytes']))
+                    cases.append(core.Case(cid, 'parse', o2, ents=g['ents']).doc(m['bytes']))
                     info[cid] = ('mut', g, name, m)
         recs = core.run_cases(binary, cases, tag='c02')
         for c in cases:
